@@ -3,7 +3,45 @@
 // Contracts for govc (comment-only file; see /verif/DESIGN.md section 3).
 package party
 
-//@ spec fn ids_contains(Slice, Int) Bool
-
 //@ func (IDSlice).Contains
+//@   nopanic[C05]
 //@   modifies nothing
+
+//@ func (IDSlice).Valid
+//@   nopanic[C05]
+//@   modifies nothing
+
+//@ func (IDSlice).Copy
+//@   nopanic[C05]
+//@   modifies nothing
+//@   allocates
+//@   ensures len(result) == len(partyIDs)
+
+//@ func (IDSlice).search
+//@   nopanic[C05]
+//@   modifies nothing
+
+//@ func (ID).Scalar
+//@   nopanic[C05]
+//@   requires group != nil
+//@   modifies nothing
+//@   allocates
+//@   ensures result != nil
+
+//@ func (ID).WriteTo
+//@   nopanic[C05]
+//@   requires w != nil
+
+//@ func EmptyPointMap
+//@   nopanic[C05]
+//@   modifies nothing
+//@   allocates
+//@   ensures result != nil && result.group == group
+
+//@ func (*PointMap).UnmarshalBinary
+//@   nopanic[C05,C15]
+//@   requires m != nil
+
+//@ func (*PointMap).MarshalBinary
+//@   nopanic[C05]
+//@   requires m != nil
